@@ -234,7 +234,13 @@ class World:
                 if kind == 0:
                     if isinstance(it, str):
                         nm = os.path.basename(it)[len('efield_'):-3]
-                        slot = [f"{a}_{b}" for a, b in sl].index(nm)
+                        names = [f"{a}_{b}" for a, b in sl]
+                        if nm in names:      # files named by keys (before the C11 repair)
+                            slot = names.index(nm)
+                        else:                # files named by positions in the survey
+                            i_s, i_f = (int(x) for x in nm.split('_'))
+                            slot = sl.index((list(sim.survey.sources.keys())[i_s],
+                                             list(sim.survey.frequencies.keys())[i_f]))
                     else:
                         slot = sl.index((skey[id(d['source'])], fkey[float(d['frequency'])]))
                 else:
